@@ -113,7 +113,7 @@ class ProductState:
         return self.states == other.states
 
     def __hash__(self):
-        return hash(tuple(self.states.items()))
+        return hash(frozenset(self.states.items()))
 
     def _json_dict_(self) -> dict[str, Any]:
         return {'states': list(self.states.items())}
